@@ -171,3 +171,39 @@ def direct_call_of(fn, op, limit=8):
     return None
 
 
+
+
+WHO_ASSETS_OK = {
+    "<Assets as serialization::traits::Deserialize>::deserialize": "decoder fills a fresh map",
+    "Assets::insert": "the public setter of one quantity",
+    "MultiAsset::sub": "subtraction with zero pruning (C03 ZERO-prune)",
+    "Value::checked_add": "the one place quantities of the same asset are added (checked)",
+}
+
+
+def who_assets_rule(rep, F):
+    """who may mutate a map of asset quantities: merging two bundles by hand (extend / insert) overwrites the quantity of an asset that
+    is present on both sides instead of adding it"""
+    rep.rule("WHO-assets", "BTreeMap<AssetName, BigNum> (the quantities of one policy) is mutated only by Assets::insert, the Assets decoder, Value::checked_add and MultiAsset::sub; every other sum of bundles goes through those")
+    n = 0
+    seen = {}
+    for fid, fn in F.fns.items():
+        if "/tests/" in fn["file"] or F.is_derived(fid):
+            continue
+        for bb in fn["bbs"]:
+            t = bb["t"]
+            if t[1] != "call":
+                continue
+            to = t[2].get("to") or ""
+            ga = t[2].get("ga") or ""
+            if "BTreeMap" in to and to.rsplit("::", 1)[-1] in ("insert", "extend", "entry", "get_mut", "remove", "append", "retain", "pop_first", "pop_last", "clear", "values_mut", "iter_mut") and "AssetName" in ga and "BigNum" in ga:
+                n += 1
+                base = F.key(fid.split("::{closure")[0])
+                seen.setdefault(base, set()).add(to.rsplit("::", 1)[-1])
+    for base, ops in sorted(seen.items()):
+        rep.inst("WHO-assets")
+        if base in WHO_ASSETS_OK:
+            rep.allow("WHO-assets")
+            continue
+        rep.violation("WHO-assets", "%s|%s" % (base, ",".join(sorted(ops))), "%s mutates a map of asset quantities directly (%s): merging bundles by hand overwrites the quantity of an asset held on both sides instead of adding it (use Value::checked_add / MultiAsset::add)" % (base, ", ".join(sorted(ops))), {})
+    rep.floor("direct mutations of asset-quantity maps inventoried", 5, n)
